@@ -186,7 +186,8 @@ var tsAliases = map[string]string{
 	"rfc822": time.RFC822, "ansic": time.ANSIC, "stamp": time.Stamp, "nginx_errorlog": "2006/01/02 15:04:05",
 }
 
-var reInt = regexp.MustCompile(`^-?(0|[1-9][0-9]{0,17})$`)
+// plain decimal integers well inside int64 ("-0" is left undetermined)
+var reInt = regexp.MustCompile(`^(0|-?[1-9][0-9]{0,17})$`)
 
 // nowLo/nowHi bracket every wall-clock "now" this harness can ever run at; the
 // generator keeps event timestamps of now-mode rules outside the bracket, so the
@@ -586,6 +587,8 @@ type Sel struct {
 	Mode   string `json:"mode"` // and | or | and_prefix | or_prefix
 	Invert bool   `json:"invert,omitempty"`
 	Conds  []Cond `json:"conds"`
+	// DoIf, when set, is a do_if rule (JSON text) used instead of match_fields.
+	DoIf string `json:"do_if,omitempty"`
 }
 
 // evalCond: doc comments of the match modes: values = "exact match" (and/or) or
